@@ -3,6 +3,7 @@ package main
 import (
 	"fmt"
 	"math/big"
+	"os"
 )
 
 // Real-sorted terms (w == -1): the field handles of the algebra model. Constants are exact rationals.
@@ -78,6 +79,9 @@ func REq(a, b *Term) *Term {
 	if xc && yc {
 		return Bool(x.Cmp(y) == 0)
 	}
+	if eq, decided := polyEq(a, b); decided {
+		return Bool(eq)
+	}
 	if a.id > b.id {
 		a, b = b, a
 	}
@@ -97,4 +101,344 @@ func realRef(t *Term) string {
 		return s
 	}
 	return fmt.Sprintf("(/ %s %s.0)", s, den.String())
+}
+
+// ---- exact polynomial normal forms. Every Real-sorted term built from variables, rational constants, + - * and division
+// by constants denotes a polynomial with rational coefficients; it is expanded into a canonical map monomial -> coefficient.
+// Two terms with the same normal form are equal as polynomials, hence for every value of the variables: such equalities are
+// folded to `true` when the term is built and never reach the solver (identity testing by exact arithmetic over Q).
+// Anything else (division by a non-constant, a normal form beyond the size cap) is kept as an opaque atom and left to z3.
+type poly map[string]*big.Rat
+
+var polyMemo = map[int]poly{}
+
+const polyCap = 60000
+
+func monoMul(a, b string) string {
+	if a == "" {
+		return b
+	}
+	if b == "" {
+		return a
+	}
+	// monomials are sorted lists of "id^exp" joined by '*'
+	type fe struct {
+		id, e int
+	}
+	parse := func(s string) []fe {
+		var r []fe
+		for _, f := range splitStar(s) {
+			var x fe
+			fmt.Sscanf(f, "%d^%d", &x.id, &x.e)
+			r = append(r, x)
+		}
+		return r
+	}
+	x, y := parse(a), parse(b)
+	var out []fe
+	i, j := 0, 0
+	for i < len(x) || j < len(y) {
+		switch {
+		case j >= len(y) || (i < len(x) && x[i].id < y[j].id):
+			out = append(out, x[i])
+			i++
+		case i >= len(x) || y[j].id < x[i].id:
+			out = append(out, y[j])
+			j++
+		default:
+			out = append(out, fe{x[i].id, x[i].e + y[j].e})
+			i++
+			j++
+		}
+	}
+	s := ""
+	for k, f := range out {
+		if k > 0 {
+			s += "*"
+		}
+		s += fmt.Sprintf("%d^%d", f.id, f.e)
+	}
+	return s
+}
+
+func splitStar(s string) []string {
+	var r []string
+	cur := ""
+	for _, c := range s {
+		if c == '*' {
+			r = append(r, cur)
+			cur = ""
+		} else {
+			cur += string(c)
+		}
+	}
+	return append(r, cur)
+}
+
+func polyOf(t *Term) poly {
+	if p, ok := polyMemo[t.id]; ok {
+		return p
+	}
+	var p poly
+	atom := func() poly { return poly{fmt.Sprintf("%d^1", t.id): big.NewRat(1, 1)} }
+	switch t.op {
+	case "rconst":
+		r, _ := t.rat()
+		p = poly{}
+		if r.Sign() != 0 {
+			p[""] = r
+		}
+	case "var":
+		p = atom()
+	case "+", "-":
+		a, b := polyOf(t.args[0]), polyOf(t.args[1])
+		p = make(poly, len(a)+len(b))
+		for m, c := range a {
+			p[m] = c
+		}
+		for m, c := range b {
+			d := c
+			if t.op == "-" {
+				d = new(big.Rat).Neg(c)
+			}
+			if e, ok := p[m]; ok {
+				s := new(big.Rat).Add(e, d)
+				if s.Sign() == 0 {
+					delete(p, m)
+				} else {
+					p[m] = s
+				}
+			} else {
+				p[m] = d
+			}
+		}
+	case "*":
+		a, b := polyOf(t.args[0]), polyOf(t.args[1])
+		if len(a)*len(b) > polyCap {
+			p = atom()
+			break
+		}
+		p = make(poly, len(a)*len(b))
+		for m1, c1 := range a {
+			for m2, c2 := range b {
+				m := monoMul(m1, m2)
+				v := new(big.Rat).Mul(c1, c2)
+				if e, ok := p[m]; ok {
+					s := new(big.Rat).Add(e, v)
+					if s.Sign() == 0 {
+						delete(p, m)
+					} else {
+						p[m] = s
+					}
+				} else {
+					p[m] = v
+				}
+			}
+		}
+	case "/":
+		b := polyOf(t.args[1])
+		if c, ok := b[""]; ok && len(b) == 1 {
+			a := polyOf(t.args[0])
+			inv := new(big.Rat).Inv(c)
+			p = make(poly, len(a))
+			for m, x := range a {
+				p[m] = new(big.Rat).Mul(x, inv)
+			}
+		} else {
+			p = atom()
+		}
+	default:
+		p = atom()
+	}
+	if len(p) > polyCap {
+		p = atom()
+	}
+	polyMemo[t.id] = p
+	return p
+}
+
+// polyEq decides a == b by normal forms: (true, true) identical, (false, true) differ by a non-zero constant, (_, false) undecided
+func polyEq(a, b *Term) (bool, bool) {
+	pa, pb := polyOf(a), polyOf(b)
+	if len(pa) > 4000 || len(pb) > 4000 {
+		// still exact, only slower: compare directly
+	}
+	diffConst := new(big.Rat)
+	other := false
+	for m, c := range pa {
+		d := new(big.Rat).Set(c)
+		if e, ok := pb[m]; ok {
+			d.Sub(d, e)
+		}
+		if d.Sign() != 0 {
+			if m == "" {
+				diffConst = d
+			} else {
+				other = true
+			}
+		}
+	}
+	for m, c := range pb {
+		if _, ok := pa[m]; !ok && c.Sign() != 0 {
+			if m == "" {
+				diffConst = new(big.Rat).Neg(c)
+			} else {
+				other = true
+			}
+		}
+	}
+	if other {
+		return false, false
+	}
+	return diffConst.Sign() == 0, true
+}
+
+// ---- explicit witnesses for satisfiable algebra queries. A query whose assertions are Boolean literals and (dis)equalities
+// between Real-sorted terms is first evaluated exactly at one deterministic generic rational point; if every assertion holds
+// there, the point IS a model (sat with an explicit witness) and z3 is not asked. Only `sat` can be concluded this way.
+type witness struct {
+	reals map[int]*big.Rat
+	bools map[int]bool
+	bvs   map[int]uint64
+	memo  map[int]*big.Rat
+}
+
+func genericValue(id int, salt int) *big.Rat {
+	x := uint64(id)*2654435761 + uint64(salt)*40503
+	return big.NewRat(int64(x%999983)+2, 1)
+}
+
+func (w *witness) evalRat(t *Term, salt int) (*big.Rat, bool) {
+	if r, ok := w.memo[t.id]; ok {
+		return r, r != nil
+	}
+	var r *big.Rat
+	switch t.op {
+	case "rconst":
+		r, _ = t.rat()
+	case "var":
+		v, ok := w.reals[t.id]
+		if !ok {
+			v = genericValue(t.id, salt)
+			w.reals[t.id] = v
+		}
+		r = v
+	case "+", "-", "*", "/":
+		a, ok1 := w.evalRat(t.args[0], salt)
+		b, ok2 := w.evalRat(t.args[1], salt)
+		if ok1 && ok2 {
+			switch t.op {
+			case "+":
+				r = new(big.Rat).Add(a, b)
+			case "-":
+				r = new(big.Rat).Sub(a, b)
+			case "*":
+				r = new(big.Rat).Mul(a, b)
+			case "/":
+				if b.Sign() != 0 {
+					r = new(big.Rat).Quo(a, b)
+				}
+			}
+		}
+	}
+	w.memo[t.id] = r
+	return r, r != nil
+}
+
+func (w *witness) evalBool(t *Term, salt int) (bool, bool) {
+	switch t.op {
+	case "const":
+		if t.w == 0 {
+			return t.val == 1, true
+		}
+	case "var":
+		if t.w == 0 {
+			v, ok := w.bools[t.id]
+			if !ok {
+				w.bools[t.id] = false
+			}
+			return v, true
+		}
+	case "not":
+		v, ok := w.evalBool(t.args[0], salt)
+		return !v, ok
+	case "and", "or":
+		a, ok1 := w.evalBool(t.args[0], salt)
+		b, ok2 := w.evalBool(t.args[1], salt)
+		if t.op == "and" {
+			return a && b, ok1 && ok2
+		}
+		return a || b, ok1 && ok2
+	case "=":
+		if t.args[0].w == -1 {
+			a, ok1 := w.evalRat(t.args[0], salt)
+			b, ok2 := w.evalRat(t.args[1], salt)
+			if ok1 && ok2 {
+				return a.Cmp(b) == 0, true
+			}
+		}
+		if t.args[0].w == 0 {
+			a, ok1 := w.evalBool(t.args[0], salt)
+			b, ok2 := w.evalBool(t.args[1], salt)
+			return a == b, ok1 && ok2
+		}
+		if t.args[0].w > 0 {
+			a, ok1 := w.evalBV(t.args[0], salt)
+			b, ok2 := w.evalBV(t.args[1], salt)
+			return a == b, ok1 && ok2
+		}
+	}
+	return false, false
+}
+
+// bit-vector leaves only (constants and variables, e.g. the bytes of an uninterpreted hash value)
+func (w *witness) evalBV(t *Term, salt int) (uint64, bool) {
+	switch t.op {
+	case "const":
+		return t.val, true
+	case "var":
+		if v, ok := w.bvs[t.id]; ok {
+			return v, true
+		}
+		v := (uint64(t.id)*2654435761 + uint64(salt)*97) >> 7 & mask(t.w)
+		w.bvs[t.id] = v
+		return v, true
+	}
+	return 0, false
+}
+
+func tryWitness(ts []*Term) *witness {
+	for salt := 0; salt < 2; salt++ {
+		w := &witness{reals: map[int]*big.Rat{}, bools: map[int]bool{}, bvs: map[int]uint64{}, memo: map[int]*big.Rat{}}
+		// Boolean variables asserted as literals get the asserted polarity
+		for _, t := range ts {
+			if t.op == "var" && t.w == 0 {
+				w.bools[t.id] = true
+			}
+			if t.op == "not" && t.args[0].op == "var" && t.args[0].w == 0 {
+				w.bools[t.args[0].id] = false
+			}
+		}
+		good := true
+		for _, t := range ts {
+			v, ok := w.evalBool(t, salt)
+			if !ok {
+				if os.Getenv("SYMGO_WITDBG") != "" {
+					fmt.Fprintf(os.Stderr, "witness: outside fragment: %s\n", t.def())
+				}
+				return nil // outside the fragment: ask the solver
+			}
+			if !v {
+				if os.Getenv("SYMGO_WITDBG") != "" {
+					fmt.Fprintf(os.Stderr, "witness: false at generic point: %s\n", t.def())
+				}
+				good = false
+				break
+			}
+		}
+		if good {
+			return w
+		}
+	}
+	return nil
 }
